@@ -1,8 +1,12 @@
 import HypatiaModel.Query
 import HypatiaModel.QueryModel
 import Driver.Sess
+import Driver.Lexicon
+import Driver.Text
 namespace Driver.QueryS
 open Hyp Hyp.Query
+open Driver.QParserS (str? hex?)
+open Driver.LexiconS (LexCfg cfgStep cfgOf)
 
 def cmpOfString : String → Option Cmp
   | "eq" => some .eq | "noteq" => some .noteq | "gt" => some .gt | "ge" => some .ge
@@ -90,6 +94,8 @@ def errStr : Err → String
   | .typeError => "err TypeError"
   | .indexError => "err IndexError"
   | .valueError => "err ValueError"
+  | .parseError => "err ParseError"
+  | .queryError => "err QueryError"
 
 def showRes : Except Err IdSet → String
   | .ok r => showIdSet r
@@ -180,9 +186,24 @@ def step (cat : Catalog) (toks : List String) : Catalog × String :=
     | _ => (cat, "bad-op")
   | _ => (cat, "bad-op")
 
-/-! The session also keeps the catalog of index *models* (C01/C02 states): every `doc` line is an
+/-! The session also keeps the catalog of index *models* (C01/C02/C13/C03 states): every `doc` line is an
 `index_doc` on the model of that index.  `applye2e` evaluates the tree over the models (`applyQM`) and, as
-specification, over the specification tables (`applyQ`) – `c04_end_to_end` says the two agree. -/
+specification, over the specification tables (`applyQ`) – `c04_end_to_end` says the two agree.
+
+Model-backed facet and text indexes (the `cfg index keyword` / `cfg index text` lines above keep their
+specification-level meaning for the sessions that do not compose):
+  cfg word|lower|stop|pipeline|space …   lexicon configuration (as in session `text`), before the index line
+  cfg index facet                        a FacetIndex model; then
+    cfg dict facets <f> …                  the configured facets (a facet is `seg.seg.seg`, segments ranked)
+    cfg dict names <f> …                   the dictionary of leaf values (value x = x-th name)
+    cfg dict paths <f> …                   the dictionary of document values (`doc i d p…` = these paths)
+  cfg index textm                        a TextIndex model (Okapi back end); then
+    cfg dict words <str> …                 the dictionary of document values (`doc i d w…` = the words, joined by blanks)
+    cfg dict queries <str> …               the dictionary of leaf values (value x = x-th query string)
+The specification tables of these indexes are derived from their C13/C03 document tables (`facetTable`,
+`textTable`) whenever a query arrives.  `applye2e` prints the specification's answer when the hypotheses of
+`c04_end_to_end` hold for the session (`histOK`: lexicon below 2^28 words, every query string of a dictionary
+accepted and admissible; the tree's text leaves name dictionary entries) and `?` otherwise. -/
 
 def setDocM (ix : IndexM) (d : Int) (v : Option (List Int)) : Option IndexM :=
   match ix, v with
@@ -190,36 +211,135 @@ def setDocM (ix : IndexM) (d : Int) (v : Option (List Int)) : Option IndexM :=
   | .field s, some [x] => some (.field (Field.indexDoc s d (some x)))
   | .field _, _ => none
   | .keyword s, v => some (.keyword (Keyword.indexDoc s d v))
-  | .text t, v => some (.text (AMap.set t d v))
+  | _, _ => none
 
-def stepM (st : Catalog × MCatalog) (toks : List String) : (Catalog × MCatalog) × String :=
-  let (cat, mcat) := st
+inductive Aux where
+  /-- field / keyword / specification-level text: `cat` is maintained by `step` -/
+  | plain
+  | facet (names F0 paths : List Facet.Facet) (T : Facet.Spec.Table)
+  | text (qs words : List QP.Str) (T : Text.Spec.Table)
+
+structure St where
+  cat : Catalog := []
+  mcat : List (Option IndexM) := []
+  aux : List Aux := []
+  lc : LexCfg := {}
+  spaces : List Nat := []
+
+def facet? (t : String) : Option Facet.Facet := (t.splitOn ".").mapM String.toNat?
+
+/-- the specification catalog: the tables of the model-backed indexes are derived from their document tables
+(the definitions `specIndex` uses) -/
+def catOf (st : St) : Catalog :=
+  st.cat.zipIdx.map (fun (ix, i) =>
+    match st.aux[i]?, st.mcat[i]? with
+    | some (.facet names F0 _ T), _ => .keyword (facetTable names (Facet.Spec.kwTable (Keyword.dedup F0) T))
+    | some (.text qs _ T), some (some (.text cfg sp _ _)) => .text (textTable cfg sp qs T)
+    | _, _ => ix)
+
+/-- `histOK` for the text models of the session -/
+def hypsOK (st : St) : Bool :=
+  st.mcat.all (fun m =>
+    match m with
+    | some (.text cfg sp qs s) => decide (s.base.lex.count < 0x10000000) && qs.all (queryOK cfg sp)
+    | _ => true)
+
+/-- `listedLeaf` for the text models of the session -/
+def leafOK (st : St) (c : Cmp) (i : Nat) (v : Val) : Bool :=
+  match st.mcat[i]?, v with
+  | some (some (.text _ _ qs _)), .one x => !textCmp c || (decide (0 ≤ x) && decide (x.toNat < qs.length))
+  | _, _ => true
+
+def nthD {α : Type} (l : List α) (x : Int) : Option α := if x < 0 then none else l[x.toNat]?
+
+def stepM (st : St) (toks : List String) : St × String :=
+  match cfgStep st.lc toks with
+  | some (some c) => ({ st with lc := c }, "ok")
+  | some none => (st, "bad-op")
+  | none =>
   match toks with
-  | ["cfg", "index", "field"] => ((cat ++ [.field []], mcat ++ [.field Field.init]), "ok")
-  | ["cfg", "index", "keyword"] => ((cat ++ [.keyword []], mcat ++ [.keyword Keyword.init]), "ok")
-  | ["cfg", "index", "text"] => ((cat ++ [.text []], mcat ++ [.text []]), "ok")
+  | "cfg" :: "space" :: rest =>
+    match rest.mapM hex? with
+    | some cs => ({ st with spaces := cs ++ st.spaces }, "ok")
+    | none => (st, "bad-op")
+  | ["cfg", "index", "field"] =>
+    ({ st with cat := st.cat ++ [.field []], mcat := st.mcat ++ [some (.field Field.init)], aux := st.aux ++ [.plain] }, "ok")
+  | ["cfg", "index", "keyword"] =>
+    ({ st with cat := st.cat ++ [.keyword []], mcat := st.mcat ++ [some (.keyword Keyword.init)],
+               aux := st.aux ++ [.plain] }, "ok")
+  | ["cfg", "index", "text"] =>
+    ({ st with cat := st.cat ++ [.text []], mcat := st.mcat ++ [none], aux := st.aux ++ [.plain] }, "ok")
+  | ["cfg", "index", "facet"] =>
+    ({ st with cat := st.cat ++ [.keyword []], mcat := st.mcat ++ [some (.facet [] (Facet.init []))],
+               aux := st.aux ++ [.facet [] [] [] []] }, "ok")
+  | ["cfg", "index", "textm"] =>
+    let spaces := st.spaces
+    ({ st with cat := st.cat ++ [.text []],
+               mcat := st.mcat ++ [some (.text (cfgOf st.lc) (fun c => spaces.contains c) [] {})],
+               aux := st.aux ++ [.text [] [] []] }, "ok")
+  | "cfg" :: "dict" :: what :: rest =>
+    let i := st.aux.length - 1
+    match st.aux[i]?, st.mcat[i]? with
+    | some (.facet names F0 paths T), some (some (.facet _ s)) =>
+      match rest.mapM facet? with
+      | none => (st, "bad-op")
+      | some fs =>
+        if what = "facets" then
+          ({ st with aux := st.aux.set i (.facet names fs paths T),
+                     mcat := st.mcat.set i (some (.facet names (Facet.init fs))) }, "ok")
+        else if what = "names" then
+          ({ st with aux := st.aux.set i (.facet fs F0 paths T), mcat := st.mcat.set i (some (.facet fs s)) }, "ok")
+        else if what = "paths" then ({ st with aux := st.aux.set i (.facet names F0 fs T) }, "ok")
+        else (st, "bad-op")
+    | some (.text qs words T), some (some (.text cfg sp _ s)) =>
+      match rest.mapM str? with
+      | none => (st, "bad-op")
+      | some ws =>
+        if what = "words" then ({ st with aux := st.aux.set i (.text qs ws T) }, "ok")
+        else if what = "queries" then
+          ({ st with aux := st.aux.set i (.text ws words T), mcat := st.mcat.set i (some (.text cfg sp ws s)) }, "ok")
+        else (st, "bad-op")
+    | _, _ => (st, "bad-op")
   | "doc" :: i :: d :: vs =>
-    let (cat', out) := step cat toks
-    if out == "ok" then
-      match i.toNat?, d.toInt?, (if vs = ["none"] then some none else (intList? vs).map some) with
-      | some i, some d, some v =>
-        match mcat[i]? with
-        | some ix =>
-          match setDocM ix d v with
-          | some ix' => ((cat', mcat.set i ix'), "ok")
-          | none => ((cat, mcat), "bad-op")
-        | none => ((cat, mcat), "bad-op")
-      | _, _, _ => ((cat, mcat), "bad-op")
-    else ((cat, mcat), out)
+    match i.toNat?, d.toInt?, (if vs = ["none"] then some none else (intList? vs).map some) with
+    | some i, some d, some v =>
+      match st.aux[i]?, st.mcat[i]? with
+      | some (.facet names F0 paths T), some (some (.facet _ s)) =>
+        match (match v with | none => some none | some xs => (xs.mapM (nthD paths)).map some) with
+        | none => (st, "bad-op")
+        | some pv =>
+          ({ st with aux := st.aux.set i (.facet names F0 paths (Facet.Spec.stepT T (.index d pv))),
+                     mcat := st.mcat.set i (some (.facet names (Facet.indexDoc s d pv))) }, "ok")
+      | some (.text qs words T), some (some (.text cfg sp _ s)) =>
+        match (match v with | none => some none | some xs => (xs.mapM (nthD words)).map some) with
+        | none => (st, "bad-op")
+        | some wv =>
+          let op : Text.Op := .index d (wv.map (fun ws => [Driver.TextS.joinSp ws]))
+          ({ st with aux := st.aux.set i (.text qs words (Text.Spec.stepT cfg T op)),
+                     mcat := st.mcat.set i (some (.text cfg sp qs (Text.step cfg true s op))) }, "ok")
+      | some .plain, some m =>
+        let (cat', out) := step st.cat toks
+        if out == "ok" then
+          match m with
+          | none => ({ st with cat := cat' }, "ok")
+          | some ix =>
+            match setDocM ix d v with
+            | some ix' => ({ st with cat := cat', mcat := st.mcat.set i (some ix') }, "ok")
+            | none => (st, "bad-op")
+        else (st, out)
+      | _, _ => (st, "bad-op")
+    | _, _, _ => (st, "bad-op")
   | "applye2e" :: rest =>
-    match parseQ (rest.length + 1) rest with
-    | some (q0, []) =>
+    match parseQ (rest.length + 1) rest, st.mcat.mapM id with
+    | some (q0, []), some mcat =>
       let q := construct q0
-      ((cat, mcat), showRes (applyQM mcat q) ++ " ## " ++ showRes (applyQ cat q))
-    | _ => ((cat, mcat), "bad-op")
+      let spec := if hypsOK st && leavesAll (leafOK st) q then showRes (applyQ (catOf st) q) else "?"
+      (st, showRes (applyQM mcat q) ++ " ## " ++ spec)
+    | _, _ => (st, "bad-op")
+  | "cfg" :: _ => (st, "ok")
   | _ =>
-    let (cat', out) := step cat toks
-    ((cat', mcat), out)
+    let (_, out) := step (catOf st) toks
+    (st, out)
 
-def sess : Sess := { σ := Catalog × MCatalog, st := ([], []), step := stepM }
+def sess : Sess := { σ := St, st := {}, step := stepM }
 end Driver.QueryS
